@@ -102,7 +102,7 @@ func genRouteNode(t *rapid.T, lss []map[string]string, parent timers, depth int,
 	r.GroupBy = genGroupBy(t, true)
 	eff := parent
 	if rapid.IntRange(0, 2).Draw(t, "ogw") == 0 {
-		eff.gw = sampled(t, "gw", 0, 10, 30)
+		eff.gw = sampled(t, "gw", 0, 10, 30, 30, 300)
 		r.GroupWait = ip(eff.gw)
 	}
 	if rapid.IntRange(0, 2).Draw(t, "ogi") == 0 {
@@ -199,14 +199,16 @@ func GenConfig(t *rapid.T, lss []map[string]string, p GenParams) (Config, int, i
 			c.Intervals = append(c.Intervals, iv)
 		}
 	}
-	root := timers{gw: sampled(t, "rgw", 0, 10, 30), gi: sampled(t, "rgi", 30, 60, 300), ri: sampled(t, "rri", 120, 600, 3600, 14400)}
+	// (group_wait above group_interval is unusual but valid)
+	root := timers{gw: sampled(t, "rgw", 0, 10, 30, 30, 300), gi: sampled(t, "rgi", 30, 60, 300), ri: sampled(t, "rri", 120, 600, 3600, 14400)}
 	if root.ri < root.gi {
 		root.ri = root.gi * 2
 	}
 	maxRI := root.ri
 	c.Route = &Route{Receiver: "r0", GroupBy: genGroupBy(t, false), GroupWait: ip(root.gw), GroupInterval: ip(root.gi), RepeatInterval: ip(root.ri)}
+	// one tree in three has grandchildren (options and time intervals of an intermediate route meet a child without)
 	depth := 1
-	if p.DeepTree {
+	if p.DeepTree || rapid.IntRange(0, 2).Draw(t, "deep") == 0 {
 		depth = 2
 	}
 	nc := rapid.IntRange(0, 3).Draw(t, "nchildren")
